@@ -2,7 +2,6 @@
   C19 — helper lemmas: hex round trips, the decimal-context arithmetic of amounts, the number scanner.
 -/
 import BtcVerif.Model.Rpc
-import Mathlib.Tactic.IntervalCases
 namespace BtcVerif.Rpc
 open BtcVerif Model.Rpc
 
